@@ -190,15 +190,25 @@ class Normaliser:
         """Rewrite returns in tail position into `res = value` (or keep them, as_return); raise _No when a return is not
         in tail position.  Second component: every path through the result ends in a (rewritten) return."""
         out: list[ast.stmt] = []
+        if as_return:
+            # the call is itself returned: the helper's returns are the caller's, wherever they stand
+            return list(stmts) + [ast.Return(value=ast.Constant(value=None))], True
         for i, s in enumerate(stmts):
             if isinstance(s, ast.Return):
-                if as_return:
-                    out.append(s)
-                elif res is not None:
-                    out.append(ast.copy_location(ast.Assign(targets=[ast.Name(id=res, ctx=ast.Store())],
-                                                            value=s.value or ast.Constant(value=None), lineno=s.lineno), s))
-                elif s.value is not None and _has_call(s.value):
-                    out.append(ast.copy_location(ast.Expr(value=s.value), s))
+                out.extend(self._store_result(res, s))
+                return out, True
+            if isinstance(s, (ast.While, ast.For)) and _contains_return(s) and not s.orelse and self._search_loop_ok(s):
+                # a search loop: `while c: ... return X ...` followed by the not-found tail.  With no `break` of its own, the loop
+                # ends normally exactly when no return was taken, so the tail is its `else` clause and every return becomes
+                # "store the result, break".
+                rest, rest_always = self._tailify(stmts[i + 1:], res, False)
+                if not rest_always:
+                    rest = rest + self._store_result(res, ast.copy_location(ast.Return(value=ast.Constant(value=None)), s))
+                loop = copy.copy(s)
+                loop.body = self._returns_to_breaks(s.body, res)
+                # `while True:` never ends normally: its else clause would be dead code
+                loop.orelse = [] if isinstance(s, ast.While) and isinstance(s.test, ast.Constant) and s.test.value is True else rest
+                out.append(loop)
                 return out, True
             if isinstance(s, ast.If) and _contains_return(s):
                 rest = stmts[i + 1:]
@@ -210,6 +220,82 @@ class Normaliser:
                 raise _No("return inside a loop / try / with")
             out.append(s)
         return out, False
+
+    def _store_result(self, res, ret: ast.Return) -> list[ast.stmt]:
+        """Statements that deliver the value of `return <value>` to the call site: res is None (value unused), a name, or a
+        tuple of names (the call was unpacked)."""
+        v = ret.value or ast.Constant(value=None)
+        if res is None:
+            return [ast.copy_location(ast.Expr(value=v), ret)] if ret.value is not None and _has_call(v) else []
+        if isinstance(res, str):
+            return [ast.copy_location(ast.Assign(targets=[ast.Name(id=res, ctx=ast.Store())], value=v, lineno=ret.lineno), ret)]
+        names = list(res)
+        if isinstance(v, ast.Tuple) and len(v.elts) == len(names) and not any(isinstance(e, ast.Starred) for e in v.elts):
+            # a, b = E1, E2  ->  a = E1; b = E2   when no later component reads an earlier target
+            ok = True
+            for k, e in enumerate(v.elts):
+                if {x.id for x in ast.walk(e) if isinstance(x, ast.Name)} & set(names[:k]):
+                    ok = False
+            if ok:
+                return [ast.copy_location(ast.Assign(targets=[ast.Name(id=n_, ctx=ast.Store())], value=e, lineno=ret.lineno), ret)
+                        for n_, e in zip(names, v.elts)]
+        tgt = ast.Tuple(elts=[ast.Name(id=n_, ctx=ast.Store()) for n_ in names], ctx=ast.Store())
+        return [ast.copy_location(ast.Assign(targets=[tgt], value=v, lineno=ret.lineno), ret)]
+
+    def _search_loop_ok(self, loop: ast.AST) -> bool:
+        """No `break` that belongs to this loop, and every `return` inside it is at the loop's own level (inside `if`s, but not
+        inside an inner loop, `try` or `with`)."""
+        def scan(stmts: list[ast.stmt]) -> bool:
+            for s_ in stmts:
+                if isinstance(s_, ast.Break):
+                    return False
+                if isinstance(s_, ast.If):
+                    if not (scan(s_.body) and scan(s_.orelse)):
+                        return False
+                elif isinstance(s_, (ast.While, ast.For)):
+                    if _contains_return(s_):
+                        return False
+                elif isinstance(s_, ast.Try):
+                    # `return` in a try body / handler becomes `break`: handlers and finally clauses run the same way
+                    if any(_contains_return(x) for x in s_.finalbody):
+                        return False
+                    if not (scan(s_.body) and scan(s_.orelse) and all(scan(h.body) for h in s_.handlers) and scan(s_.finalbody)):
+                        return False
+                elif isinstance(s_, ast.With):
+                    if not scan(s_.body):
+                        return False
+            return True
+        return scan(loop.body)
+
+    def _returns_to_breaks(self, stmts: list[ast.stmt], res) -> list[ast.stmt]:
+        out: list[ast.stmt] = []
+        for s_ in stmts:
+            if isinstance(s_, ast.Return):
+                out.extend(self._store_result(res, s_))
+                out.append(ast.copy_location(ast.Break(), s_))
+                return out
+            if isinstance(s_, ast.If) and _contains_return(s_):
+                n_ = copy.copy(s_)
+                n_.body = self._returns_to_breaks(s_.body, res) or [ast.Pass()]
+                n_.orelse = self._returns_to_breaks(s_.orelse, res)
+                out.append(n_)
+            elif isinstance(s_, ast.Try) and _contains_return(s_):
+                n_ = copy.copy(s_)
+                n_.body = self._returns_to_breaks(s_.body, res) or [ast.Pass()]
+                n_.orelse = self._returns_to_breaks(s_.orelse, res)
+                n_.handlers = []
+                for h in s_.handlers:
+                    h2 = copy.copy(h)
+                    h2.body = self._returns_to_breaks(h.body, res) or [ast.Pass()]
+                    n_.handlers.append(h2)
+                out.append(n_)
+            elif isinstance(s_, ast.With) and _contains_return(s_):
+                n_ = copy.copy(s_)
+                n_.body = self._returns_to_breaks(s_.body, res) or [ast.Pass()]
+                out.append(n_)
+            else:
+                out.append(s_)
+        return out
 
     # ------------------------------------------------------------------------------------------ one call
     def _resolve(self, call: ast.Call, fn: ast.FunctionDef, cls_of: dict[str, str]) -> tuple[ast.FunctionDef, ast.AST | None, str] | None:
@@ -282,7 +368,7 @@ class Normaliser:
         rename: dict[str, str] = {}
         subst: dict[str, ast.AST] = {}
         pre: list[ast.stmt] = []
-        taken = set(caller_names) | ({res} if res else set())
+        taken = set(caller_names) | ({res} if isinstance(res, str) else set(res) if res else set())
         # a second call of the same helper in the same caller reuses the locals of the first (the helper assigns each of
         # its locals before reading it, so nothing is carried over)
         reuse = self._site_names.setdefault((id(caller_names), h.name, id(h)), {})
@@ -332,6 +418,8 @@ class Normaliser:
         new, _always = self._tailify(body, res, as_return)
         if res is not None and not _always and not as_return:
             # falling off the end returns None
+            if not isinstance(res, str):
+                raise _No("an unpacked call of a helper that can fall off its end")
             new = [ast.Assign(targets=[ast.Name(id=res, ctx=ast.Store())], value=ast.Constant(value=None), lineno=call.lineno)] + new
         return pre + new
 
@@ -488,6 +576,12 @@ class Normaliser:
                             out.extend(new or [ast.Pass()])
                         elif isinstance(s, ast.Assign) and s.value is call and len(s.targets) == 1 and isinstance(s.targets[0], ast.Name):
                             new = self._instantiate(h, call, self_arg, names, s.targets[0].id, False)
+                            out.extend(new)
+                        elif isinstance(s, ast.Assign) and s.value is call and len(s.targets) == 1 and isinstance(s.targets[0], ast.Tuple) \
+                                and all(isinstance(t, ast.Name) for t in s.targets[0].elts) \
+                                and not any(isinstance(a_, ast.Name) and a_.id in {t.id for t in s.targets[0].elts} for a_ in ast.walk(call)):
+                            # a, b = helper(...): each `return X, Y` of the helper stores the components directly
+                            new = self._instantiate(h, call, self_arg, names, tuple(t.id for t in s.targets[0].elts), False)
                             out.extend(new)
                         else:
                             self.counter += 1
